@@ -35,3 +35,8 @@ def run(tier):
     from ..contracts import cvec, aggsite
     # "collections of factors combine clique by clique": CliqueVector arithmetic in the one-key view, combine by site contracts
     return deductive.verify_module('factor', nproc=14) + [deductive.lemma_report(), domain_iter_report()] + cvec.reports() + aggsite.reports()
+
+
+def replay(prop, ob):
+    from ..contracts import cvec
+    return cvec.replay(ob)
